@@ -48,6 +48,11 @@ def run(data):
         return d
     prev = snapshot()
     initial = prev
+    _cl = {}
+    for f in ("nm", "sy"):
+        for o_, l in prev[f].items():
+            for x in l: _cl.setdefault((f, x), set()).add(o_)
+    base_dups = sorted(x for (f, x), os_ in _cl.items() if len(os_) > 1)
     out = []
     for op in data["ops"]:
         rec = {}
@@ -64,7 +69,7 @@ def run(data):
                 o = a * b if op[3] == "mul" else (a / b if op[3] == "div" else a ** op[4])
             elif k == "uresolve":
                 o = Unit.resolve_symbol(op[1])
-                if Unit.parse(op[1]) is not o:
+                if (len(op) < 3 or op[2]) and Unit.parse(op[1]) is not o:
                     raise RuntimeError("Unit.parse and Unit.resolve_symbol disagree on " + op[1])
             elif k == "pdecl":
                 o = Prefix(op[1], op[2], name=op[3], symbol=op[4]) if (op[3] or op[4]) else Prefix(op[1], op[2])
@@ -88,6 +93,15 @@ def run(data):
         except Exception as ex:  # noqa
             rec["err"] = implib.errclass(ex); rec["msg"] = str(ex)[:120]
         cur = snapshot()
+        # a name or symbol claimed by two objects, or bound to an object that does not report it
+        claims = {}
+        for f in ("nm", "sy"):
+            for o_, l in cur[f].items():
+                for x in l: claims.setdefault((f, x), set()).add(o_)
+        dups = sorted(x for (f, x), os_ in claims.items() if len(os_) > 1)
+        if dups != base_dups: rec["dups"] = [x for x in dups if x not in base_dups][:5]
+        unrep = [n for n, o_ in cur["byn"].items() if n not in cur["nm"].get(o_, [])] + [x for x, o_ in cur["bys"].items() if x not in cur["sy"].get(o_, [])]
+        if unrep: rec["unreported"] = unrep[:5]
         rec["diff"] = diff(prev, cur)
         prev = cur
         out.append(rec)
